@@ -134,7 +134,7 @@ func c10Run(sc c10Scenario, prefix []int, sigs []string) (*vsched.Sched, schedVe
 				if d, err := vDecode(b); err == nil && d.HasFSEID {
 					seids = append(seids, d.UPSEID)
 				} else {
-					prologueErr = "establishment not accepted in the prologue"
+					prologueErr = fmt.Sprintf("establishment not accepted in the prologue (association %d, response %+v, decode error %v)", i, d, err)
 					return
 				}
 			}
@@ -423,8 +423,11 @@ func TestVerifC10(t *testing.T) {
 		return
 	}
 	completed := bound
-	for i, sc := range scs {
-		if !vMine(i) {
+	// every worker takes its share of the first-level subtrees of every scenario (the scenarios differ in size by orders of
+	// magnitude; the canonical execution at the root is run by every worker)
+	schedShard = func(k int) bool { return vMine(k) }
+	for _, sc := range scs {
+		if only := os.Getenv("VERIF_ONLY"); only != "" && !strings.Contains(sc.Name, only) {
 			continue
 		}
 		sc := sc
@@ -441,5 +444,6 @@ func TestVerifC10(t *testing.T) {
 	}
 	res.Extra["min_deviation_bound_completed"] = completed
 	res.Extra["scenarios"] = len(scs)
+	res.Extra["states_are_outcomes"] = true
 	res.sample(map[string]any{"scenario": scs[len(scs)/2], "schedule": "choice list of the scheduler, e.g. [0,0,1,0,2]"})
 }
